@@ -16,8 +16,8 @@ if git apply $d/patch.diff 2>/dev/null || { git apply -3 $d/patch.diff 2>/dev/nu
 if go build ./... 2>/dev/null; then res="$res build=ok"; else echo "$d $res build=FAIL"; exit 1; fi
 if go test -vet=off -count=1 ./... >/tmp/confirm.$$.log 2>&1; then res="$res suite=pass"; else res="$res suite=FAIL"; fi
 cp $d/demo_test.go $sub/zz_seeded_demo_test.go
-if go test -vet=off -count=1 -run "^$tname\$" ./$sub >/tmp/confirm.$$.log 2>&1; then res="$res demo_with_patch=PASS(bad)"; else res="$res demo_with_patch=fail(good)"; fi
+if go test ${RACEFLAG:-} -vet=off -count=1 -run "^$tname\$" ./$sub >/tmp/confirm.$$.log 2>&1; then res="$res demo_with_patch=PASS(bad)"; else res="$res demo_with_patch=fail(good)"; fi
 git checkout -q -- . 
-if go test -vet=off -count=1 -run "^$tname\$" ./$sub >/tmp/confirm.$$.log 2>&1; then res="$res demo_clean=pass(good)"; else res="$res demo_clean=FAIL(bad)"; tail -5 /tmp/confirm.$$.log; fi
+if go test ${RACEFLAG:-} -vet=off -count=1 -run "^$tname\$" ./$sub >/tmp/confirm.$$.log 2>&1; then res="$res demo_clean=pass(good)"; else res="$res demo_clean=FAIL(bad)"; tail -5 /tmp/confirm.$$.log; fi
 rm -f $sub/zz_seeded_demo_test.go /tmp/confirm.$$.log
 echo "$d $res"
